@@ -330,6 +330,19 @@ namespace awkward {
   }
 
   const FormPtr
+  RecordForm::getitem_range() const {
+    std::vector<FormPtr> contents;
+    for (auto content : contents_) {
+      contents.push_back(content.get()->getitem_range());
+    }
+    return std::make_shared<RecordForm>(has_identities_,
+                                        parameters_,
+                                        form_key_,
+                                        recordlookup_,
+                                        contents);
+  }
+
+  const FormPtr
   RecordForm::getitem_field(const std::string& key) const {
     return content(key);
   }
